@@ -27,6 +27,24 @@ claimed = {
  'C17': dict(level='proof', design='4.17',
    text="RawMessageFilter is verified as a data structure for all operation sequences: every delivery site proves height == current height, instance == mine, sender != me; the cache invariant (each cached message sits under its own height, has this instance id and a foreign sender) is preserved by every method; HandleConsensusRawMessage delivers / appends-at-the-end / drops exactly under the stated conditions and clears lower heights when a higher one arrives; ConsumeCacheMessages delivers the cached messages of the new height exactly once and in arrival order (ghost delivery log), stops as soon as a delivery moved the node to another height, and removes the consumed key. The re-entrant path (a delivery that commits and starts the next height) is part of the handler's assumed contract.",
    note="Trusted: govc, z3/cvc5. Assumed: the term re-enters the filter only by advancing the height (handler contract, to be discharged on WorkerLoop); message accessors are pure (A-MB-TOTAL); State.height is only written by the worker goroutine (structural). Proviso of the statement read permissively (eviction by a later higher-height message is allowed), see DESIGN 4.17."),
+ 'C08': dict(level='proof', design='4.8',
+   text="Every site where a received PREPREPARE / PREPARE / COMMIT / VIEW_CHANGE is stored (and thereby counted or answered) proves the statement's conditions as preconditions of the Storage operation: signature verified under the claimed sender, signed type matches, sender is a committee member, height is the node's height (established by the verified raw filter), role fits (leader / non-leader / addressed to me as leader of that view / not stale), proposals satisfy their hash, votes carry a valid prepared proof together with its block. ValidatePreparedProof is proved sound (one (height, earlier view, hash), leader-signed proposal, distinct member prepares, quorum weight, signed types). The four handlers, their helpers and the filter are verified for all message contents and all node states.",
+   note="Trusted: govc, z3/cvc5. Assumed: Storage returns only what was stored (A-STORE, abstract log); KeyManager verdict is a function of (height, bytes, id, signature); membuffers accessors pure/total, iterators finite (A-MB-TOTAL, A-ITER); message factory output (trusted contracts, verified under C20 when claimed); receivers / SPI fields non-nil (A-NONNIL). Instance id of nested references (proof refs, votes) is not checked by the code and not claimed."),
+ 'C07': dict(level='proof', design='4.7',
+   text="HandleNewView adopts a view and a proposal only after proving, at the adoption site: header signed by the leader of that view for this height, all votes read, each vote signed and of VIEW_CHANGE type for exactly (height, view), pairwise distinct senders, quorum weight (verified quorum functions), embedded proposal for that view and height from the leader, and either the highest-proof vote is valid and its hash is the re-proposed hash and the block satisfies it, or the fresh block passed this node's ValidateBlockProposal under a context still live. The leader side (checkElected / onElectedByViewChange) proves the same about the votes it counted before proposing. One obligation is an open known finding (K1): a bare PREPREPARE in the current view > 0 is accepted (an existing test asserts it), so run-level evidence is 'other' with discharged < obligations.",
+   note="Trusted: govc, z3/cvc5. Assumed: latestViewChangeVote picks the vote with the highest proof view (sort.Slice, A-SORT; body trusted for now); Storage abstract log; membuffers accessors/iterators; SPI purity. Known finding K1 listed in known_findings.json."),
+ 'C10': dict(level='proof', design='4.10',
+   text="Single-node send log as ghost state: every PREPARE send proves no PREPARE was sent for that view, view == current view, hash == hash of the proposal accepted (first stored) for that view, and this node is not that view's leader; every COMMIT send proves the proposal for that view is accepted with that hash and (site assertion) a prepared certificate or commit quorum for exactly (view, hash) computed from the storage content for that key, and a re-send carries the same hash; every PREPREPARE/NEW_VIEW send proves this node leads the view, the view is current and nothing was proposed for it (with the invariant 'proposed(v) => latest elected view >= v'). The invariant tying the log to the stored proposals is preserved by every handler.",
+   note="Trusted: govc, z3/cvc5. Assumed: Storage.StorePreprepare is first-wins and getters enumerate the stored set (A-STORE; InMemoryStorage not yet verified against it); the two 5-line send functions forward the message unchanged (trusted boundary carrying the ghost update); verification covers a term until its commit callback has been invoked. VIEW_CHANGE view monotonicity (moveToNextLeaderByElection) is being added."),
+ 'C03': dict(level='proof', design='4.3',
+   text="At the single call site of the commit callback it is proved: not committed before in this term; at least one commit; every commit handed over is authentic (signature over its header, COMMIT type, canonical header, committee member), all are for one (height == node height, view, hash); the sender list that passed the quorum test is exactly the storage's sender list for that key and enumerates the same messages; the block is the block of the proposal accepted for that view whose header hash is that hash and which satisfies it. Together with the verified acceptance conditions of ValidateBlockConsensus (C02) these are the conditions under which a peer accepts; the remaining link (proof bytes generated from the commits re-read to the same fields) is the wire round-trip assumption A-MB-RT.",
+   note="Trusted: govc, z3/cvc5. Assumed: A-STORE; A-MB-RT for BlockProofBuilder/BlockRefBuilder (GenerateLeanHelixBlockProof plumbing being put under contract); A-KM-AGG (aggregated random-seed signature verifies under the master key); peers share committee and previous proof."),
+ 'C04': dict(level='proof', design='4.4',
+   text="Decided locally: the block handed to the commit callback is the block of the proposal stored for the committed view and satisfies the certified hash; every stored proposal was signed (PREPREPARE type) by the leader of its view for the node's height; a proposal is adopted only if this node's ValidateBlockProposal approved it under a context observed live afterwards, or it is the block of the highest valid prepared proof of an accepted NEW_VIEW whose header hash equals the proven hash. Not decided: 'approved on at least one correct member' (needs cross-node quorum intersection).",
+   note="Trusted: govc, z3/cvc5. Assumed: A-SPI (ValidateBlockProposal == nil implies the block satisfies the hash; no block satisfies the empty hash), A-STORE. The global clause of the statement is outside single-node contracts."),
+ 'C09': dict(level='proof', design='4.9',
+   text="Proved: the prepared certificate of a node is never dropped or moved to a lower view by any handler within a term (lock-kept postcondition on all handlers); a stored vote has a valid proof and proof and block come together; the elected leader proposes only after the vote obligations of C07, re-proposes the extractor's block with a hash the block satisfies, and requests a fresh block only when the extractor found no vote with a block. Trusted for now: the extractor's choice of the highest-view proof (sort.Slice) and the field-by-field copy of votes into the NEW_VIEW.",
+   note="Trusted: govc, z3/cvc5. Assumed: GetLatestBlockFromViewChangeMessages / ExtractConfirmationsFromViewChangeMessages contracts (A-SORT, bodies being put under contract), ExtractPreparedMessages (being put under contract), A-STORE, factory."),
 }
 
 na_fixed = {
